@@ -635,6 +635,13 @@ class Sim:
                 return int(v) if isinstance(v, str) else v
             if "fbits" in op and op.get("ty") in ("f32", "f64"):
                 return flt_from_bits(int(op["fbits"]), op["ty"])
+            if "newtype_int" in op:
+                v = op["newtype_int"]
+                return Adt(op.get("ty", "?"), 0, [int(v) if isinstance(v, str) else v])
+            if "bytes" in op and op.get("ty", "").replace("&'static ", "&") in ("&u8", "&u16", "&u32", "&u64", "&usize", "&bool") \
+                    and 0 < len(op["bytes"]) <= 8:
+                # a promoted reference to a scalar constant (`&10u8`)
+                return Ref([int.from_bytes(bytes(x & 255 for x in op["bytes"]), "little")], 0, ())
             if "bytes" in op:
                 ty = op.get("ty", "").replace("&'static ", "&").replace("&mut ", "&")
                 if ty.startswith("&[u8") or ty in ("&str", "str") or ty.startswith("[u8"):
@@ -2191,6 +2198,13 @@ class Sim:
                 if p.endswith("sub"):
                     return ("value", wrap(d[0] - d[1], ty))
                 return ("value", wrap(d[0] * d[1], ty))
+            return ("value", UNK)
+        if p.endswith("::saturating_add") or p.endswith("::saturating_sub") or p.endswith("::saturating_mul"):
+            ty = (c.get("inherent_self") or "")
+            tr = _ty_range(ty)
+            if all(isinstance(x, int) for x in d) and len(d) == 2 and tr is not None and ty != "char":
+                v = d[0] + d[1] if p.endswith("add") else d[0] - d[1] if p.endswith("sub") else d[0] * d[1]
+                return ("value", max(tr[0], min(tr[1], v)))
             return ("value", UNK)
         if p.endswith("::checked_neg") or p.endswith("::checked_add") or p.endswith("::checked_sub") or p.endswith("::checked_mul"):
             ty = (c.get("inherent_self") or "")
